@@ -233,6 +233,105 @@ static void do_conn (const uint8_t *v, size_t n)
   do_conn_m (vs, ns, 1);
 }
 
+/* ---------------------------------------------------------------- real connection, scripted queries (per-request cache) */
+
+static struct MHD_Daemon *rdq;
+static int q_early, q_phase, q_reqs;
+
+/* all three API functions, twice: "<basic> ; <info>" of the first round, REPEAT-DIFF if the second differs */
+static void q_round (struct MHD_Connection *c)
+{
+  char *b[2] = {NULL, NULL}; size_t n[2];
+  for (int k = 0; k < 2; k++)
+  {
+    FILE *f = open_memstream (&b[k], &n[k]);
+    print_basic (f, c); fputs (" ; ", f); print_info (f, c);
+    fclose (f);
+  }
+  if (0 != strcmp (b[0], b[1])) fputs ("REPEAT-DIFF ", hout);
+  fputs (b[0], hout);
+  free (b[0]); free (b[1]);
+}
+
+/* MHD_OPTION_URI_LOG_CALLBACK: runs when the request line has been read, before the header fields */
+static void *q_uri_log (void *cls, const char *uri, struct MHD_Connection *c)
+{
+  static int marker;
+  (void) cls; (void) uri;
+  if (q_reqs++) fputs (" / ", hout);
+  q_phase = 0;
+  if (q_early) { fputs ("[u=", hout); q_round (c); fputs ("] ", hout); }
+  return &marker;
+}
+
+static enum MHD_Result
+q_ahc (void *cls, struct MHD_Connection *c, const char *url, const char *method, const char *version,
+       const char *upload_data, size_t *upload_data_size, void **req_cls)
+{
+  struct MHD_Response *r;
+  enum MHD_Result ret;
+  (void) cls; (void) url; (void) method; (void) version; (void) upload_data; (void) req_cls;
+  q_phase++;
+  fprintf (hout, "%s[h%d=", (q_phase > 1) ? " " : "", q_phase);
+  q_round (c);
+  fputs ("]", hout);
+  if (1 == q_phase) return MHD_YES;
+  if (0 != *upload_data_size) { *upload_data_size = 0; return MHD_YES; }
+  r = MHD_create_response_from_buffer_static (2, "ok");
+  ret = MHD_queue_response (c, MHD_HTTP_OK, r);
+  MHD_destroy_response (r);
+  return ret;
+}
+
+/* reqs[k] = list of Authorization values of request k; all requests are pipelined on one connection */
+static void do_connq (int early, uint8_t ***vals, size_t **lens, int *cnts, int nreq)
+{
+  int sv[2];
+  char *buf = NULL; size_t blen = 0;
+  char rb[512];
+  int wbad = 0;
+  if (NULL == rdq)
+  {
+    rdq = MHD_start_daemon (MHD_USE_NO_LISTEN_SOCKET, 0, NULL, NULL, &q_ahc, NULL,
+                            MHD_OPTION_URI_LOG_CALLBACK, &q_uri_log, NULL,
+                            MHD_OPTION_CONNECTION_MEMORY_LIMIT, (size_t) 65536, MHD_OPTION_END);
+    if (NULL == rdq) { puts ("fault daemon-start"); return; }
+  }
+  if (0 != socketpair (AF_UNIX, SOCK_STREAM, 0, sv)) { puts ("fault socketpair"); return; }
+  hout = open_memstream (&buf, &blen);
+  q_early = early; q_reqs = 0; q_phase = 0;
+  if (MHD_YES != MHD_add_connection (rdq, sv[0], NULL, 0)) { puts ("fault add-connection"); close (sv[1]); fclose (hout); free (buf); return; }
+  for (int k = 0; k < nreq; k++)
+  {
+    static const char pre[] = "POST /x HTTP/1.1\r\nHost: h";
+    static const char hdr[] = "\r\nAuthorization: ";
+    static const char mid[] = "\r\nContent-Length: 3";
+    static const char cl[] = "\r\nConnection: close";
+    static const char end[] = "\r\n\r\nabc";
+    if (write (sv[1], pre, sizeof(pre) - 1) < 0) wbad = 1;
+    for (int j = 0; j < cnts[k]; j++)
+      if (write (sv[1], hdr, sizeof(hdr) - 1) < 0 || write (sv[1], vals[k][j], lens[k][j]) < 0) wbad = 1;
+    if (write (sv[1], mid, sizeof(mid) - 1) < 0) wbad = 1;
+    if (k + 1 == nreq && write (sv[1], cl, sizeof(cl) - 1) < 0) wbad = 1;
+    if (write (sv[1], end, sizeof(end) - 1) < 0) wbad = 1;
+  }
+  if (wbad) puts ("fault write");
+  for (int k = 0; k < 12 + 10 * nreq; k++)
+  {
+    MHD_run (rdq);
+    while (recv (sv[1], rb, sizeof(rb), MSG_DONTWAIT) > 0) { }
+  }
+  shutdown (sv[1], SHUT_WR);
+  while (recv (sv[1], rb, sizeof(rb), MSG_DONTWAIT) > 0) { }
+  close (sv[1]);
+  for (int k = 0; k < 4; k++) MHD_run (rdq);
+  fclose (hout);
+  if (nreq != q_reqs) printf ("fault requests-seen=%d ", q_reqs);
+  fputs (buf ? buf : "", stdout);
+  putchar ('\n');
+  free (buf);
+}
+
 /* ---------------------------------------------------------------- white-box parsers */
 
 static void slot (const char *base, const struct MHD_RqDAuthParam *p)
@@ -394,6 +493,36 @@ int main (void)
       if (bad) puts ("bad-op"); else do_conn_m (vs, ns, cnt);
       for (int k = 0; k < cnt; k++) free (vs[k]);
     }
+    else if (l.n >= 3 && l.n <= 10 && !strcmp (l.w[0], "connq") && (!strcmp (l.w[1], "0") || !strcmp (l.w[1], "1")))
+    {
+      int nreq = l.n - 2, bad = 0;
+      uint8_t **vals[8]; size_t *lens[8]; int cnts[8];
+      for (int k = 0; k < nreq; k++) { vals[k] = NULL; lens[k] = NULL; cnts[k] = 0; }
+      for (int k = 0; k < nreq && !bad; k++)
+      {
+        char *w = l.w[2 + k];
+        int cnt = 1;
+        if (!strcmp (w, "-")) continue;
+        for (char *q = w; *q; q++) if (',' == *q) cnt++;
+        vals[k] = (uint8_t **) calloc ((size_t) cnt, sizeof(uint8_t *));
+        lens[k] = (size_t *) calloc ((size_t) cnt, sizeof(size_t));
+        for (int j = 0; j < cnt && !bad; j++)
+        {
+          char *e = strchr (w, ',');
+          if (e) *e = 0;
+          vals[k][j] = lp_unhex (w, &lens[k][j]);
+          cnts[k] = j + 1;
+          if (!vals[k][j] || !conn_value_ok (vals[k][j], lens[k][j])) bad = 1;
+          w = e ? e + 1 : w;
+        }
+      }
+      if (bad) puts ("bad-op"); else do_connq ('1' == l.w[1][0], vals, lens, cnts, nreq);
+      for (int k = 0; k < nreq; k++)
+      {
+        for (int j = 0; j < cnts[k]; j++) free (vals[k][j]);
+        free (vals[k]); free (lens[k]);
+      }
+    }
     else if (l.n == 2 && !strcmp (l.w[0], "conn"))
     {
       size_t n; uint8_t *b = lp_unhex (l.w[1], &n);
@@ -405,6 +534,7 @@ int main (void)
     fflush (stdout);
   }
   if (rd) MHD_stop_daemon (rd);
+  if (rdq) MHD_stop_daemon (rdq);
   free (l.buf);
   return 0;
 }
